@@ -208,15 +208,27 @@ def _attr_start(src, idx):
     return i
 
 
-def find_items(src, lo, hi, kind, name):
+def _impl_header_matches(header, name):
+    """exact (whitespace-insensitive) header match, or -- for a selector `impl ~Trait for Type` -- any impl block whose
+    header names that trait (last path segment) for that type, whatever generics / path prefix / where clause it carries"""
+    if name.startswith("~"):
+        m = re.match(r"^~\s*(\w+)\s+for\s+(\w+)$", name.strip())
+        if not m:
+            raise LostAnchor(f"bad fuzzy impl selector '{name}'")
+        h = " ".join(header.split())
+        return re.search(r"(^|[^\w])%s\s+for\s+%s([^\w]|$)" % (m.group(1), m.group(2)), h) is not None
+    return norm(header) == norm(name) or norm(header).startswith(norm(name) + "where")
+
+
+def find_items(src, lo, hi, kind, name, deep=False):
     """Find items of `kind` named/headed `name` among sig-tokens [lo,hi) at
-    nesting depth 0 relative to that range.  Returns list of dicts."""
+    nesting depth 0 relative to that range (any depth with deep=True).  Returns list of dicts."""
     res = []
     i = lo
     while i < hi:
         k, s, e = src.sig[i]
         t = src.text[s:e]
-        if k == "punct" and t in OPEN:
+        if k == "punct" and t in OPEN and not deep:
             i = src.match[i] + 1
             continue
         if k == "ident" and t == kind and kind != "macro_rules":
@@ -228,10 +240,15 @@ def find_items(src, lo, hi, kind, name):
                     if src.tok(j) in OPEN:
                         j = src.match[j]
                     j += 1
+                if j >= hi:
+                    i += 1
+                    continue
                 header = src.text[src.sig[i + 1][1]:src.sig[j][1]]
-                if norm(header) == norm(name) or norm(header).startswith(norm(name) + "where"):
+                if _impl_header_matches(header, name):
                     res.append(_mk_item(src, i, j, src.match[j]))
-                i = src.match[j] + 1
+                    i = src.match[j] + 1
+                    continue
+                i = (i + 1) if deep else (src.match[j] + 1)
                 continue
             if i + 1 < hi and src.sig[i + 1][0] == "ident" and src.tok(i + 1) == name:
                 # locate end: first '{' or ';' at depth 0
@@ -303,6 +320,9 @@ def locate(src, selector, lo=0, hi=None):
         hi = len(src.sig)
     parts = selector.split(" > ")
     part = parts[0].strip()
+    deep = part.startswith("** ")        # `** struct X`: at any nesting depth (modules, fn bodies) inside the range
+    if deep:
+        part = part[3:].strip()
     m = re.match(r"^(.*?)(?:\s+#(\d+|\*))?$", part)
     part, ordinal = m.group(1), m.group(2)
     if part.startswith("macro_rules!"):
@@ -313,7 +333,7 @@ def locate(src, selector, lo=0, hi=None):
         kind, _, name = part.partition(" ")
     if kind not in KEYWORDS_ITEM:
         raise LostAnchor(f"bad selector part '{part}'")
-    items = find_items(src, lo, hi, kind, name.strip())
+    items = find_items(src, lo, hi, kind, name.strip(), deep)
     rest = " > ".join(parts[1:])
     if ordinal == "*":
         found = []
@@ -344,7 +364,7 @@ def locate(src, selector, lo=0, hi=None):
 # rewrites R1-R3 on an item's text
 # --------------------------------------------------------------------------
 
-DROP_ATTRS = ("derive", "trace", "builtin", "allow", "inline", "must_use", "cold", "doc",
+DROP_ATTRS = ("derive", "trace", "educe", "automatically_derived", "builtin", "allow", "inline", "must_use", "cold", "doc",
               "repr", "default", "error", "diagnostic", "expect", "typed")
 
 
@@ -484,8 +504,35 @@ def _element_end(src, i):
 _cache = {}
 
 
+_expand_lock = __import__("threading").Lock()
+_expanded_done = {}
+
+
+def expanded_path(crate):
+    """`expanded:<crate>`: the crate's source after macro expansion (derives, cc_dyn!, ...), produced from the current working tree
+    by the repository's own compiler: cargo rustc -p <crate> --lib -- -Zunpretty=expanded.  Regenerated once per process."""
+    import subprocess
+    build = os.environ.get("VERIF_BUILD", os.path.join(os.path.dirname(os.path.dirname(os.path.abspath(__file__))), "build"))
+    out = os.path.join(build, "_expanded", crate + ".rs")
+    with _expand_lock:
+        if _expanded_done.get(crate) == REPO:
+            return out
+        os.makedirs(os.path.dirname(out), exist_ok=True)
+        env = dict(os.environ); env["RUSTC_BOOTSTRAP"] = "1"; env["CARGO_NET_OFFLINE"] = "true"
+        r = subprocess.run(["cargo", "rustc", "--offline", "-q", "-p", crate, "--lib", "--", "-Zunpretty=expanded"],
+                           cwd=REPO, env=env, stdout=subprocess.PIPE, stderr=subprocess.PIPE, text=True, timeout=1800)
+        if r.returncode != 0 or len(r.stdout) < 1000:
+            raise LostAnchor(f"macro expansion of {crate} failed: {r.stderr[-600:]}")
+        open(out, "w").write(r.stdout)
+        _expanded_done[crate] = REPO
+    return out
+
+
 def load(relpath):
-    p = relpath if os.path.isabs(relpath) else os.path.join(REPO, relpath)
+    if relpath.startswith("expanded:"):
+        p = expanded_path(relpath[len("expanded:"):])
+    else:
+        p = relpath if os.path.isabs(relpath) else os.path.join(REPO, relpath)
     if p not in _cache:
         try:
             text = open(p, encoding="utf-8").read()
